@@ -808,6 +808,8 @@ class ClientSession:
                             data = None
                             # The body is dropped, so is its framing.
                             chunked = None
+                            expect100 = False
+                            headers.popall(hdrs.EXPECT, None)
                             if headers.get(hdrs.CONTENT_LENGTH):
                                 headers.pop(hdrs.CONTENT_LENGTH)
                         else:
